@@ -12,12 +12,16 @@
 (*            Remove) re-expresses every tracked object in that system's default unit of its  *)
 (*            category (UpdateObjects); changing a default unit of the current system does    *)
 (*            NOT (the code only notifies listeners) - modelled as the code behaves.          *)
+(*   ro       id -> the read-only flag of a registered system (AddUnitSystem(read_only=),     *)
+(*            SetReadOnly, IsReadOnly): a flag for user interfaces - as the code behaves, it  *)
+(*            is not enforced: a read-only system still accepts SetDefaultUnit /              *)
+(*            RemoveCategory and, when current, still notifies (ReadOnlyIsOnlyAFlag)          *)
 (* Mapping literals (Lits) are caller-side dict objects; the replayer passes the same dict   *)
 (* object whenever the model uses the same literal, so aliasing is part of the input space;  *)
 (* the specification says every system owns a copy.                                          *)
 EXTENDS Integers, Sequences, SequencesExt, FiniteSets, TLC, Json, IOUtils, Rat
 
-CONSTANTS Ids, Cats, Units, MaxCalls, Ops, TypeOf, FactorOf, EmitEvery, EmitOffset
+CONSTANTS Ids, Cats, Units, MaxCalls, Ops, TypeOf, FactorOf, EmitEvery, EmitOffset, RoVals
 NONE == "<none>"
 EmptyM == [x \in {} |-> ""]
 Lits == {"L1", "L2", "L3"}
@@ -25,8 +29,8 @@ LitVal(l) == CASE l = "L1" -> [length |-> "m"]
                [] l = "L2" -> [length |-> "cm", time |-> "s"]
                [] l = "L3" -> [depth |-> "cm", time |-> "min"]
 
-VARIABLES order, maps, current, template, log, hist, objs
-vars == <<order, maps, current, template, log, hist, objs>>
+VARIABLES order, maps, current, template, log, hist, objs, ro
+vars == <<order, maps, current, template, log, hist, objs, ro>>
 \* the objects a client may create and register: category and the unit it is created with
 ObjPool == [o1 |-> [c |-> "length", u |-> "m"], o2 |-> [c |-> "time", u |-> "min"]]
 EmptyO == [x \in {} |-> [c |-> "", u |-> ""]]
@@ -34,7 +38,7 @@ EmptyO == [x \in {} |-> [c |-> "", u |-> ""]]
 Updated(ob, cur, mp) == [o \in DOMAIN ob |-> IF cur # NONE /\ ob[o].c \in DOMAIN mp[cur] THEN [ob[o] EXCEPT !.u = mp[cur][ob[o].c]] ELSE ob[o]]
 \* model checking with several workers: the depth is part of the view, so that the bound on the hidden history cuts
 \* the same states in every run; emission (one worker, strict BFS) identifies states across depths
-View == IF ("EMIT" \in DOMAIN IOEnv) /\ IOEnv.EMIT # "0" THEN <<order, maps, current, template, objs>> ELSE <<<<order, maps, current, template, objs>>, Len(hist)>>
+View == IF ("EMIT" \in DOMAIN IOEnv) /\ IOEnv.EMIT # "0" THEN <<order, maps, current, template, objs, ro>> ELSE <<<<order, maps, current, template, objs, ro>>, Len(hist)>>
 
 Out(k, t, x) == [k |-> k, t |-> t, x |-> x]
 Ok == Out("ok", "", Zero)
@@ -58,7 +62,7 @@ NewId(n) == IF ("system " \o ToString(n)) \in Reg THEN NewId(n + 1) ELSE "system
 
 \* the effect of a call: [out, order, maps, current, template, log]
 \* (every selection - cur differs from the current one or the call is SetCurrent - runs UpdateObjects: see Step)
-St(o, ord, mp, cur, tp, lg) == [out |-> o, order |-> ord, maps |-> mp, current |-> cur, template |-> tp, log |-> lg, objs |-> objs]
+St(o, ord, mp, cur, tp, lg) == [out |-> o, order |-> ord, maps |-> mp, current |-> cur, template |-> tp, log |-> lg, objs |-> objs, ro |-> ro]
 Same(o) == St(o, order, maps, current, template, log)
 Effect(c) ==
   CASE c.op = "SetTemplate" ->
@@ -69,16 +73,16 @@ Effect(c) ==
          IF c.a.id \in Reg THEN Same(Exc("KEY"))
          ELSE IF c.a.l # NONE /\ template.set /\ ~Covers(LitVal(c.a.l), template.m) THEN Same(Exc("KEY"))
          ELSE LET m == IF c.a.l # NONE THEN LitVal(c.a.l) ELSE IF template.set THEN template.m ELSE EmptyM IN
-              St(Ok, Append(order, c.a.id), (c.a.id :> m) @@ maps,
+              [St(Ok, Append(order, c.a.id), (c.a.id :> m) @@ maps,
                  IF current = NONE THEN c.a.id ELSE current, template,
-                 IF current = NONE THEN Append(log, <<"cur", c.a.id>>) ELSE log)
+                 IF current = NONE THEN Append(log, <<"cur", c.a.id>>) ELSE log) EXCEPT !.ro = (c.a.id :> c.a.ro) @@ ro]
     [] c.op = "RemoveUnitSystem" ->
          IF c.a.id \notin Reg THEN Same(Exc("KEY"))
          ELSE LET rest == Remaining(c.a.id)
                   nc == IF rest = <<>> THEN NONE ELSE rest[1] IN
-              IF current = c.a.id
-              THEN St(Ok, rest, Drop(maps, c.a.id), nc, template, Append(log, <<"cur", nc>>))
-              ELSE St(Ok, rest, Drop(maps, c.a.id), current, template, log)
+              [(IF current = c.a.id
+                THEN St(Ok, rest, Drop(maps, c.a.id), nc, template, Append(log, <<"cur", nc>>))
+                ELSE St(Ok, rest, Drop(maps, c.a.id), current, template, log)) EXCEPT !.ro = Drop(ro, c.a.id)]
     [] c.op = "SetCurrent" ->      \* fires on_current on every call, also when re-selecting
          St(Ok, order, maps, c.a.id, template, Append(log, <<"cur", c.a.id>>))
     [] c.op = "SetDefaultUnit" ->
@@ -99,6 +103,9 @@ Effect(c) ==
     \* the caller still holds the object of a system that was removed (or never added) and changes it: nothing of the manager's is touched,
     \* no listener hears of it
     [] c.op = "SetDefaultUnitRemoved" -> Same(Ok)
+    \* the read-only flag: set, read; nothing else is touched and nobody is notified
+    [] c.op = "SetReadOnly" -> [Same(Ok) EXCEPT !.ro = [ro EXCEPT ![c.a.id] = c.a.ro]]
+    [] c.op = "IsReadOnly" -> Same(Out("ok", IF ro[c.a.id] THEN "true" ELSE "false", Zero))
     [] c.op = "GetNewId" -> Same(Out("ok", NewId(1), Zero))
     [] c.op = "GetCategoryDefaultUnit" -> Same(Out("ok", DefaultUnit(c.a.c), Zero))
     [] c.op = "GetCurrentId" -> Same(Out("ok", current, Zero))
@@ -110,7 +117,7 @@ Effect(c) ==
          Same(IF DefaultUnit(c.a.c) = NONE THEN Out("ok", c.a.u, c.a.x) ELSE ConvertOut(c.a.c, c.a.u, DefaultUnit(c.a.c), c.a.x))
 
 Enabled(c) ==
-  CASE c.op \in {"SetDefaultUnit", "RemoveCategory"} -> c.a.id \in Reg        \* called on a registered system object
+  CASE c.op \in {"SetDefaultUnit", "RemoveCategory", "SetReadOnly", "IsReadOnly"} -> c.a.id \in Reg        \* called on a registered system object
     [] c.op = "SetCurrent" -> c.a.id \in Reg \cup {NONE}                       \* selection selects registered systems or None
     [] c.op = "DropObject" -> c.a.o \in DOMAIN objs
     [] c.op = "SetDefaultUnitRemoved" -> c.a.id \notin Reg
@@ -120,12 +127,15 @@ Step(c) ==
   /\ LET e == Effect(c) IN
      /\ order' = e.order /\ maps' = e.maps /\ current' = e.current /\ template' = e.template /\ log' = e.log
      /\ objs' = IF IsOk(e.out) /\ (c.op = "SetCurrent" \/ e.current # current) THEN Updated(e.objs, e.current, e.maps) ELSE e.objs
+     /\ ro' = e.ro
      /\ hist' = Append(hist, [op |-> c.op, a |-> c.a, out |-> e.out])
 
 Call(op, a) == [op |-> op, a |-> a]
 Xs == {One, <<5, 2>>}
 SetTemplate      == \E l \in Lits : Step(Call("SetTemplate", [l |-> l]))
-AddUnitSystem    == \E id \in Ids, l \in Lits \cup {NONE} : Step(Call("AddUnitSystem", [id |-> id, l |-> l]))
+AddUnitSystem    == \E id \in Ids, l \in Lits \cup {NONE}, r \in RoVals : Step(Call("AddUnitSystem", [id |-> id, l |-> l, ro |-> r]))
+SetReadOnly      == \E id \in Ids, r \in BOOLEAN : Step(Call("SetReadOnly", [id |-> id, ro |-> r]))
+IsReadOnly       == \E id \in Ids : Step(Call("IsReadOnly", [id |-> id]))
 RemoveUnitSystem == \E id \in Ids : Step(Call("RemoveUnitSystem", [id |-> id]))
 SetCurrent       == \E id \in Ids \cup {NONE} : Step(Call("SetCurrent", [id |-> id]))
 SetDefaultUnit   == \E id \in Ids, c \in Cats, u \in Units : Step(Call("SetDefaultUnit", [id |-> id, c |-> c, u |-> u]))
@@ -144,8 +154,9 @@ ConvertToCurrent == \E c \in QCats : \E u \in { v \in Units : TypeOf[v] = TypeOf
 ConvertScalarToCurrent == \E c \in QCats : \E u \in { v \in Units : TypeOf[v] = TypeOf[c] }, x \in Xs :
                        Step(Call("ConvertScalarToCurrent", [c |-> c, u |-> u, x |-> x]))
 Init == /\ TLCSet(2, 1 + (EmitOffset % 65520)) /\ order = <<>> /\ maps = EmptyM /\ current = NONE
-        /\ template = [set |-> FALSE, m |-> EmptyM] /\ log = <<>> /\ hist = <<>> /\ objs = EmptyO
+        /\ template = [set |-> FALSE, m |-> EmptyM] /\ log = <<>> /\ hist = <<>> /\ objs = EmptyO /\ ro = [x \in {} |-> FALSE]
 Next == SetTemplate \/ AddUnitSystem \/ RemoveUnitSystem \/ SetCurrent \/ SetDefaultUnit \/ RemoveCategory \/ Register \/ DropObject \/ SetDefaultUnitRemoved
+        \/ SetReadOnly \/ IsReadOnly
         \/ GetNewId \/ GetCategoryDefaultUnit \/ GetCurrentId \/ GetUnitSystemById \/ GetQuantityDefaultUnit
         \/ ConvertToCurrent \/ ConvertScalarToCurrent
 Spec == Init /\ [][Next]_vars
@@ -155,7 +166,8 @@ MapsSet(mp) == { [id |-> id, m |-> { [c |-> c, u |-> mp[id][c]] : c \in DOMAIN m
 EmitMode == IF "EMIT" \in DOMAIN IOEnv THEN IOEnv.EMIT ELSE "0"
 EmitRec == PrintT(<<"TR", ToJson([h |-> hist', order |-> order', maps |-> MapsSet(maps'), current |-> current',
                                  tset |-> template'.set, tm |-> { [c |-> c, u |-> template'.m[c]] : c \in DOMAIN template'.m },
-                                 log |-> log', objs |-> { [o |-> o, c |-> objs'[o].c, u |-> objs'[o].u] : o \in DOMAIN objs' }])>>)
+                                 log |-> log', objs |-> { [o |-> o, c |-> objs'[o].c, u |-> objs'[o].u] : o \in DOMAIN objs' },
+                                 ro |-> { [id |-> id, ro |-> ro'[id]] : id \in DOMAIN ro' }])>>)
 Emit == CASE EmitMode = "all"    -> EmitRec
           [] EmitMode = "last"   -> (Len(hist') = MaxCalls => EmitRec)      \* -simulate: one line per complete behaviour
           [] EmitMode = "sample" -> /\ TLCSet(2, (TLCGet(2) * 17364) % 65521)     \* multiplicative congruential generator
@@ -167,7 +179,7 @@ Emit == CASE EmitMode = "all"    -> EmitRec
 \* ---- C17 -----------------------------------------------------------------------------------------------
 IdsUnique == \A i, j \in 1..Len(order) : order[i] = order[j] => i = j
 CurrentRegistered == current \in Reg \cup {NONE}
-MapsOfRegistered == DOMAIN maps = Reg
+MapsOfRegistered == DOMAIN maps = Reg /\ DOMAIN ro = Reg
 CoverTemplate == template.set => \A id \in Reg : Covers(maps[id], template.m)     \* accepted only if covering ...
 \* ... maintained by Add/SetTemplate; RemoveCategory on a system may break it later (the code allows that), so
 \* the invariant is stated at acceptance time as an action property:
@@ -178,7 +190,12 @@ AddSelectsWhenNone == [][ LET c == hist'[Len(hist')] IN
 RemoveSelectsAnother == [][ LET c == hist'[Len(hist')] IN
                     (c.op = "RemoveUnitSystem" /\ IsOk(c.out) /\ current = c.a.id) =>
                         (current' \in Reg' \cup {NONE} /\ (Reg' # {} => current' # NONE)) ]_vars
-Atomic == [][ ~IsOk(hist'[Len(hist')].out) => UNCHANGED <<order, maps, current, template, log, objs>> ]_vars
+Atomic == [][ ~IsOk(hist'[Len(hist')].out) => UNCHANGED <<order, maps, current, template, log, objs, ro>> ]_vars
+\* the read-only flag of a system changes only through SetReadOnly on that system (and is born / dies with the system); setting it touches
+\* nothing else and notifies nobody; it does not gate anything: NotifyExactly and OwnMapping are stated without it
+ReadOnlyIsOnlyAFlag == [][ LET c == hist'[Len(hist')] IN
+    /\ \A id \in DOMAIN ro \cap DOMAIN ro' : ro'[id] # ro[id] => (c.op = "SetReadOnly" /\ c.a.id = id) \/ (c.op = "AddUnitSystem" /\ c.a.id = id)
+    /\ c.op = "SetReadOnly" => UNCHANGED <<order, maps, current, template, log, objs>> ]_vars
 \* tracked objects: whenever a system is selected, every tracked object whose category the system maps is in that unit; an object
 \* keeps its category for ever; only selections and registrations touch the units of tracked objects
 ObjectsFollowSelection == [][ LET c == hist'[Len(hist')] IN
